@@ -1,5 +1,6 @@
-(* C15, program level, fragment without type parameters / type arguments: the REPAIRED checker
-   (Check.check_repaired) accepts every program that satisfies the declarative rules. *)
+(* C15, program level, fragment without type parameters / type arguments: the checker (as it is
+   since fix d524b1f, Check.check = check_gen true) accepts every program that satisfies the
+   declarative rules. *)
 From Coq Require Import List ZArith String Bool Permutation Lia.
 From SCC Require Import Base.Sexp Lang.SynUtil Lang.FunSyn Model.Check Sem.FunTyping
   Proof.FunInd Proof.FunEq Proof.CheckAnn Proof.TypingReject Proof.CheckBuild Proof.CheckMono
@@ -271,8 +272,8 @@ Proof.
 Qed.
 
 (* ---------- the theorem ---------- *)
-Theorem check_repaired_complete_mono : forall p,
-  mono_prog p = true -> has_type_b p = true -> exists q, check_repaired p = COk q.
+Theorem check_complete_mono : forall p,
+  mono_prog p = true -> has_type_b p = true -> exists q, check p = COk q.
 Proof.
   intros p Hm Ht. pose proof Ht as Ht0. unfold has_type_b in Ht.
   apply andb_true_iff in Ht. destruct Ht as [Ht Hdefs]. apply andb_true_iff in Ht. destruct Ht as [Hn Hdecls].
@@ -285,7 +286,7 @@ Proof.
   destruct (build_symbol_table_ok p Hn) as [st Hb]; [intros td Hin; destruct (Hps td Hin) as [? [? ?]]; auto|].
   destruct (build_symbol_table_spec p st Hb) as [Tb [_ [Hty [Hc [Hd _]]]]].
   pose proof (mono_world_of_prog p Hm Hn) as W. pose proof (wf_world_of_prog p W Ht0) as WF.
-  unfold check_repaired, check_gen. rewrite Hb. simpl. unfold check_with_table_gen.
+  unfold check, check_gen. rewrite Hb. simpl. unfold check_with_table_gen.
   rewrite (check_type_decls_ok_conv _ _ st (fpdecls p) Tb); [|intros td Hin; destruct (Hps td Hin) as [? [? ?]]; auto]. simpl.
   rewrite defs_of_fdefs.
   destruct (check_defs_ok _ _ W WF (fdefs (fpdecls p)) st) as [ds' [st1 [H1 I1]]]; [|exact Tb|apply minv_start; assumption|].
